@@ -491,7 +491,7 @@ impl<const D: bool> SimShim<D> {
                             // refusals of the value/shape are recovered from: a transport
                             // error handed to the application is propagated like `?` would
                             Some((kind, msg)) if e.kind() == io::ErrorKind::InvalidData && *kind != crate::model::CARRY_ON => {
-                                let m = msg.to_vec();
+                                let m = scratch_msg(msg.to_vec());
                                 api!("finish_error", rw.finish_error(errkind(*kind), &m))?;
                                 return Ok(());
                             }
@@ -511,7 +511,7 @@ impl<const D: bool> SimShim<D> {
                             return Ok(());
                         }
                         Close::FinishError { kind, msg } => {
-                            let m = msg.to_vec();
+                            let m = scratch_msg(msg.to_vec());
                             api!("finish_error", rw.finish_error(errkind(*kind), &m))?;
                             return Ok(());
                         }
@@ -533,7 +533,7 @@ impl<const D: bool> SimShim<D> {
             }
             End::DropWriter => drop(w),
             End::Error { kind, msg } => {
-                let m = msg.to_vec();
+                let m = scratch_msg(msg.to_vec());
                 api!("error", w.error(errkind(*kind), &m[..]))?;
             }
         }
@@ -592,7 +592,7 @@ impl<const D: bool> SimShim<D> {
                 Ok(())
             }
             Act::Prepare(PrepAct::Error { kind, msg }) => {
-                let m = msg.to_vec();
+                let m = scratch_msg(msg.to_vec());
                 let r = info.error(errkind(kind), &m[..]);
                 self.w.borrow_mut().log_api(idx, "prepare_error", &clone_res(&r));
                 r?;
@@ -682,7 +682,7 @@ impl<const D: bool> SimShim<D> {
         };
         match act {
             Act::Init(InitAct::Error { kind, msg }) => {
-                let m = msg.to_vec();
+                let m = scratch_msg(msg.to_vec());
                 let r = writer.error(errkind(kind), &m[..]);
                 self.w.borrow_mut().log_api(idx, "init_error", &clone_res(&r));
                 r?;
@@ -775,5 +775,54 @@ impl MysqlShim<std::net::TcpStream> for SimShim<false> {
     common_shim_methods!(std::net::TcpStream);
     fn on_init(&mut self, schema: &str, writer: InitWriter<'_, std::net::TcpStream>) -> Result<(), ShimErr> {
         self.do_init(schema, writer)
+    }
+}
+
+
+/// The application formats its error messages into one reused scratch buffer (`buf.clear();
+/// write!(buf, ...); w.error(kind, &buf)`): every message that fits is handed to the library at
+/// the same address, whatever its content. Longer ones get an allocation of their own.
+enum ScratchMsg {
+    Shared(&'static [u8]),
+    Own(Vec<u8>),
+}
+
+impl std::ops::Deref for ScratchMsg {
+    type Target = [u8];
+    fn deref(&self) -> &[u8] {
+        match self {
+            ScratchMsg::Shared(s) => s,
+            ScratchMsg::Own(v) => v,
+        }
+    }
+}
+
+impl std::borrow::Borrow<[u8]> for ScratchMsg {
+    fn borrow(&self) -> &[u8] {
+        self
+    }
+}
+
+const SCRATCH_LEN: usize = 2048;
+
+thread_local! {
+    static SCRATCH: std::cell::Cell<*mut u8> = const { std::cell::Cell::new(std::ptr::null_mut()) };
+}
+
+fn scratch_msg(m: Vec<u8>) -> ScratchMsg {
+    if m.len() > SCRATCH_LEN {
+        return ScratchMsg::Own(m);
+    }
+    let p = SCRATCH.with(|c| {
+        if c.get().is_null() {
+            c.set(Box::leak(vec![0u8; SCRATCH_LEN].into_boxed_slice()).as_mut_ptr());
+        }
+        c.get()
+    });
+    // one message is alive at a time per thread: every call site hands it to the library and
+    // lets go of it before the next one is formatted
+    unsafe {
+        std::ptr::copy_nonoverlapping(m.as_ptr(), p, m.len());
+        ScratchMsg::Shared(std::slice::from_raw_parts(p, m.len()))
     }
 }
